@@ -1,4 +1,5 @@
 import PugModel.Tpl.Exec
+import PugModel.Gen.Tables
 import PugModel.Data.GoVal
 import PugProofs.C11.Path
 /-!
@@ -147,5 +148,145 @@ example : Reach 3 (.map [("n", .num 1), ("item", .ptr (some (.struct [("Name", t
   have h2 : lowerFirst "Title" = "title" := by decide
   exact @Reach.field 0 _ _ [] [("title", .str "T")] "name" (.str "<b>") [] _ (by simp [structEntries, h1, h2]) (by decide) (by decide)
     (by decide) (Reach.here _)
+
+/-! ## the code the model mirrors, by its control skeleton
+
+`Gen.convertSkeleton`: `convert`, `Map.convert`, `Map.Member` (pugjs/types.go) and `index` (pugjs/tpl_funcs.go): the kind switch of the conversion, the lazy member table, the member lookup with its fall-back spellings, the index tolerance - every `if` / `switch` / `case` condition, loop header, `return`, `continue`, in source order with nesting depth,
+regenerated from the Go source on every run. It must be the skeleton the conversion and lookup model (`Data/GoVal.lean`, `mapMember`, `indexFn`) was written against: a changed condition, an added
+branch or early exit reopens the obligation before any input is drawn. -/
+
+def expected_convertSkeleton : List (String × String) :=
+  [("convert", "0 if in == nil"),
+   ("convert", "1 return Nil{}"),
+   ("convert", "0 if ok"),
+   ("convert", "1 return in"),
+   ("convert", "0 if !ok"),
+   ("convert", "0 if !val.IsValid()"),
+   ("convert", "1 return Nil{}"),
+   ("convert", "0 if !val.CanInterface()"),
+   ("convert", "1 return Nil{}"),
+   ("convert", "0 if ok"),
+   ("convert", "1 return in"),
+   ("convert", "0 if ok && err != nil"),
+   ("convert", "1 if rv.Kind() != reflect.Ptr || !rv.IsNil()"),
+   ("convert", "2 return String(fmt.Sprintf(\"Error: %+v\", err))"),
+   ("convert", "0 switch val.Kind()"),
+   ("convert", "1 case reflect.Slice"),
+   ("convert", "2 for i < val.Len()"),
+   ("convert", "2 return array"),
+   ("convert", "1 case reflect.Map"),
+   ("convert", "2 range val.MapKeys()"),
+   ("convert", "3 if k.Kind() == reflect.Interface"),
+   ("convert", "2 if ok"),
+   ("convert", "3 range order"),
+   ("convert", "2 return newMap"),
+   ("convert", "1 case reflect.Struct"),
+   ("convert", "2 return newMap"),
+   ("convert", "1 case reflect.String"),
+   ("convert", "2 return String(val.String())"),
+   ("convert", "1 case reflect.Interface"),
+   ("convert", "2 if val.Type().NumMethod() == 0"),
+   ("convert", "3 return convert(val.Interface())"),
+   ("convert", "2 if !val.IsNil()"),
+   ("convert", "3 for i < val.NumMethod()"),
+   ("convert", "3 if ok"),
+   ("convert", "4 range m.items"),
+   ("convert", "2 if ok"),
+   ("convert", "2 return newMap"),
+   ("convert", "1 case reflect.Float32, reflect.Float64"),
+   ("convert", "2 return Number(val.Float())"),
+   ("convert", "1 case reflect.Int8, reflect.Int16, reflect.Int32, reflect.Int64, reflect.Int"),
+   ("convert", "2 return Number(float64(val.Int()))"),
+   ("convert", "1 case reflect.Uint8, reflect.Uint16, reflect.Uint32, reflect.Uint64, reflect.Uint"),
+   ("convert", "2 return Number(float64(val.Uint()))"),
+   ("convert", "1 case reflect.Complex128"),
+   ("convert", "2 return Nil{}"),
+   ("convert", "1 case reflect.Func"),
+   ("convert", "2 return &Func{…}"),
+   ("convert", "1 case reflect.Ptr"),
+   ("convert", "2 if val.IsValid() && val.Elem().IsValid()"),
+   ("convert", "3 if ok"),
+   ("convert", "4 for i < val.NumMethod()"),
+   ("convert", "3 return newVal"),
+   ("convert", "2 return Nil{}"),
+   ("convert", "1 case reflect.Uintptr"),
+   ("convert", "2 return Nil{}"),
+   ("convert", "1 case reflect.Bool"),
+   ("convert", "2 return Bool(val.Bool())"),
+   ("convert", "1 case reflect.Chan"),
+   ("convert", "2 return Nil{}"),
+   ("convert", "0 return Nil{}"),
+   ("Map.convert", "0 if m.items != nil"),
+   ("Map.convert", "1 return "),
+   ("Map.convert", "0 if m.o == nil"),
+   ("Map.convert", "1 return "),
+   ("Map.convert", "0 if !ok"),
+   ("Map.convert", "0 for i < val.NumField()"),
+   ("Map.convert", "1 if val.Field(i).CanInterface()"),
+   ("Map.convert", "0 for i < val.NumMethod()"),
+   ("Map.convert", "0 if ok"),
+   ("Map.convert", "1 range order"),
+   ("Map.Member", "0 if field == \"__assign\""),
+   ("Map.Member", "1 return &Func{…}"),
+   ("Map.Member", "0 if ok"),
+   ("Map.Member", "1 return i"),
+   ("Map.Member", "0 if ok"),
+   ("Map.Member", "1 return i"),
+   ("Map.Member", "0 if ok"),
+   ("Map.Member", "1 return i"),
+   ("Map.Member", "0 if ok"),
+   ("Map.Member", "1 return i"),
+   ("Map.Member", "0 if ok"),
+   ("Map.Member", "1 return i"),
+   ("Map.Member", "0 if ok"),
+   ("Map.Member", "1 return i"),
+   ("Map.Member", "0 return Nil{}"),
+   ("index", "0 if !v.IsValid()"),
+   ("index", "1 return reflect.Value{}, fmt.Errorf(\"index of untyped nil\")"),
+   ("index", "0 if ok"),
+   ("index", "0 else "),
+   ("index", "1 if ok"),
+   ("index", "1 else "),
+   ("index", "2 if ok"),
+   ("index", "2 else "),
+   ("index", "3 if ok"),
+   ("index", "4 return item, nil"),
+   ("index", "0 range indices"),
+   ("index", "1 if ok"),
+   ("index", "2 typeswitch "),
+   ("index", "3 case String"),
+   ("index", "3 case Number"),
+   ("index", "1 else "),
+   ("index", "1 if isNil"),
+   ("index", "2 return reflect.Value{}, fmt.Errorf(\"index of nil pointer\")"),
+   ("index", "1 switch v.Kind()"),
+   ("index", "2 case reflect.Array, reflect.Slice, reflect.String"),
+   ("index", "3 switch index.Kind()"),
+   ("index", "4 case reflect.Int, reflect.Int8, reflect.Int16, reflect.Int32, reflect.Int64"),
+   ("index", "4 case reflect.Uint, reflect.Uint8, reflect.Uint16, reflect.Uint32, reflect.Uint64, reflect.Uintptr"),
+   ("index", "4 case reflect.Float64"),
+   ("index", "4 case reflect.Invalid"),
+   ("index", "5 return reflect.Value{}, fmt.Errorf(\"cannot index slice/array with nil\")"),
+   ("index", "4 case "),
+   ("index", "5 if !ok"),
+   ("index", "6 return reflect.Value{}, fmt.Errorf(\"cannot index slice/array with type %s\", index.Type())"),
+   ("index", "3 if x < 0 || x >= int64(v.Len())"),
+   ("index", "4 return reflect.ValueOf(Nil{}), nil"),
+   ("index", "2 case reflect.Map"),
+   ("index", "3 if index.String() != \"\""),
+   ("index", "3 if err != nil"),
+   ("index", "4 return reflect.Value{}, err"),
+   ("index", "3 if x.IsValid()"),
+   ("index", "3 else "),
+   ("index", "4 return reflect.ValueOf(Nil{}), nil"),
+   ("index", "2 case reflect.Invalid"),
+   ("index", "2 case "),
+   ("index", "3 return reflect.Value{}, fmt.Errorf(\"can'e index item of type %s\", v.Type())"),
+   ("index", "0 return v, nil")]
+
+set_option maxRecDepth 8192 in
+/-- **C11 (the model's tie to the code, by shape).** -/
+theorem C11_convert_skeleton : Gen.convertSkeleton_ok = true ∧ Gen.convertSkeleton = expected_convertSkeleton := by
+  constructor <;> decide
 
 end Pug.Props.C11
